@@ -410,7 +410,8 @@ def decide(pid, pcfg, cfg, tier, seed, workdir, evidence):
     lemmas = lemma_index()
 
     # ---- what belongs to this property
-    my_clauses = [c for c in meta["clauses"] if pid in [t.lstrip("~") for t in c["tags"]]]
+    my_clauses = [c for c in meta["clauses"] if pid in c["tags"]]
+    dep_clauses = [c for c in meta["clauses"] if ("~" + pid) in c["tags"]]
     my_fns = [f for f in meta["functions"] if pid in f.get("props", []) or any(c["fn"] == f["item"] and c["src"] == f["src"] for c in my_clauses)]
     my_lemmas = {n: l for n, l in lemmas.items() if pid in l["props"]}
     spec_fail = [f for f in failures if f["spec_only"]]
@@ -486,6 +487,8 @@ def decide(pid, pcfg, cfg, tier, seed, workdir, evidence):
              "smt_ms": next((round(v["time_ms"], 1) for k, v in fres.items() if fn_matches(k, f)), None)}
             for f in my_fns],
         "clauses": [{"id": c["id"], "kind": c["kind"], "text": c["text"]} for c in my_clauses],
+        "stronger_clauses": [{"id": c["id"], "text": c["text"], "note": "verified on this tree; stronger than the property (not counted as its obligation): "
+                              "if only such a clause fails the property is decided by the bounded property-level sweep"} for c in dep_clauses],
         "lemmas": sorted(my_lemmas),
         "samples": [c["text"] for c in my_clauses[:6]] + [f"lemma {n}" for n in sorted(my_lemmas)[:6]],
         "vacuity": vac,
@@ -579,14 +582,35 @@ def decide(pid, pcfg, cfg, tier, seed, workdir, evidence):
         # contract is outside what was verified, and nothing exercises it - no verdict for it
         raise Undecided("new public function(s) without a contract, panic-freedom not decided for: " + ", ".join(x["item"] for x in new_pub))
     if deps:
-        raise Undecided("a functional (determinism) clause this property's proof depends on failed: " + "; ".join(deps[0]["where"]))
+        # the clause that failed is STRONGER than this property (it fixes, e.g., which error is reported when several
+        # elements of a line are malformed - the property does not): the property is decided at its own strength by
+        # the bounded sweep (real code vs the specification, only what the statement pins); never counted as proved
+        import finder
+        found = finder.search(pid)
+        cov["bounded_stand_in"] = {
+            "reason": "a clause stronger than the property failed: " + "; ".join(deps[0]["where"]),
+            "method": "finder/: property-level sweep (DESIGN.md section 3); BOUNDED, not a proof",
+            "cases": (found or {}).get("cases"), "mismatch": bool(found and found.get("found"))}
+        evidence["level"] = "other"
+        if found is None:
+            raise Undecided("a clause stronger than this property failed and the property-level sweep could not be run: " + "; ".join(deps[0]["where"]))
+        if found.get("found"):
+            path = write_replay(pid, deps, {"failing_input": {"case": found["case"], "expected": found["expected"], "actual": found["actual"],
+                                                              "how": "property-level sweep (finder/) after a clause stronger than the property failed"}})
+            evidence["violations"] = 1
+            for f in deps:
+                log(f"failed obligation (stronger than the property): {f['message']} :: {'; '.join(f['where'])}")
+            log(f"failing input: {found['case'][:200]} expected: {found['expected'][:200]} actual: {found['actual'][:200]}")
+            log(f"VIOLATION property={pid} replay={path}")
+            return 1
+        dep_note = " BOUNDED (not proved): a clause stronger than this property no longer verifies (" + deps[0]["where"][-1][:120] + "); the property-level sweep of " + str(found.get("cases")) + " cases shows no violation"
     if not vac["ok"]:
         raise Undecided("vacuity guard: " + vac["problem"])
     if obligations == 0 and not kani_res:
         raise Undecided("no obligations generated for this property")
-    note = ""
+    note = locals().get("dep_note", "")
     if ext_mine:
-        note = " BOUNDED (not proved) for " + ", ".join(x["item"] for x in ext_mine) + ": outside the verified subset in this tree, bounded stand-in passed"
+        note += " BOUNDED (not proved) for " + ", ".join(x["item"] for x in ext_mine) + ": outside the verified subset in this tree, bounded stand-in passed"
     log(f"OK property={pid} obligations={obligations} discharged={discharged} verus_wall={res['wall_s']:.1f}s" + note)
     return 0
 
